@@ -317,6 +317,10 @@ class World:
               L.quantizer.Quantizer(self.model, copy.deepcopy(RECIPES[1]))]
     self.cal = [None, None]
     self.quantized = [False, False]
+    # the recipe each object must be holding when it is known from the calls
+    # alone (constructor / load overwrite whatever was there); None after an
+    # update, where the object's own export is used
+    self.known_recipe = [copy.deepcopy(RECIPES[0]), copy.deepcopy(RECIPES[1])]
     self.held = []       # [(object, digest at the time it was handed out)]
     self.samples = {k: self.built.input_data(0, k) for k in ('mix', 'pos')}
 
@@ -363,6 +367,7 @@ def step(w, e, sub, fails):
     if kind == 'load':
       r = copy.deepcopy(RECIPES[arg])
       qt.load_quantization_recipe(r)
+      w.known_recipe[o] = copy.deepcopy(RECIPES[arg])
       if r != RECIPES[arg]:
         fail('recipe_argument_modified', '')
     elif kind == 'update':
@@ -370,6 +375,7 @@ def step(w, e, sub, fails):
       ru = md.rule(rg, op, m)
       cfg = (L.qtyping.OpQuantizationConfig.from_dict(ru['op_config'])
              if m != 'NQ' else None)
+      w.known_recipe[o] = None
       qt.update_quantization_recipe(rg, L.qtyping.TFLOperationName(op), cfg,
                                     ru['algorithm_key'])
     elif kind == 'calibrate':
@@ -385,7 +391,9 @@ def step(w, e, sub, fails):
     elif kind == 'quantize':
       cal = w.cal[o if arg == 0 else 1 - o]
       snap_cal = copy.deepcopy(cal)
-      snap_recipe = json.loads(json.dumps(qt.get_quantization_recipe()))
+      snap_recipe = json.loads(json.dumps(
+          w.known_recipe[o] if w.known_recipe[o] is not None
+          else qt.get_quantization_recipe()))
       try:
         got = ('ok', hashlib.sha256(bytes(
             qt.quantize(cal).quantized_model)).hexdigest())
